@@ -5,7 +5,7 @@ import json
 
 from .. import cases as C
 from ..factory import Factory
-from ..model import Schema, T, render_document, render_sdl
+from ..model import Schema, T, NN, render_document, render_sdl
 from .. import names
 from .. import hazards
 
@@ -29,11 +29,27 @@ def make(name, pos, rust, cid, rng):
         fname = name if pos == "field" else "plain"
         s.add("Query", {"kind": "object", "implements": [], "fields": [{"name": fname, "type": T("Int"), "args": [], "deprecated": None},
                                                                         {"name": "obj", "type": T("Obj"), "args": [], "deprecated": None}]})
-        s.add("Obj", {"kind": "object", "implements": [], "fields": [{"name": fname, "type": T("String"), "args": [], "deprecated": None}]})
+        s.add("Kind", {"kind": "enum", "values": ["ALPHA", "beta"]})
+        s.add("Obj", {"kind": "object", "implements": [], "fields": [{"name": fname, "type": T("String"), "args": [], "deprecated": None},
+                                                                      {"name": "kind", "type": NN(T("Kind")), "args": [], "deprecated": None},
+                                                                      {"name": "okind", "type": T("Kind"), "args": [], "deprecated": None},
+                                                                      {"name": "date", "type": T("Date"), "args": [], "deprecated": None},
+                                                                      {"name": "oid", "type": T("ID"), "args": [], "deprecated": None},
+                                                                      {"name": "inner", "type": T("Obj"), "args": [], "deprecated": None}]})
+        s.add("Date", {"kind": "scalar"})
         alias = name if pos == "alias" else None
         sel = [["field", alias, fname, None, None], ["field", None, "obj", None, [["field", alias, fname, None, None]]]]
-        doc = {"operations": [{"kind": "query", "name": "Q", "vars": [], "sel": sel}], "fragments": []}
         payload = {name: 5, "obj": {name: "s"}}
+        if pos == "alias":
+            # the alias is the JSON key whatever the field's type: enum, custom scalar, ID, object
+            sel = [["field", None, "obj", None, [["field", name, "kind", None, None]]],
+                   ["field", "o2", "obj", None, [["field", name, "okind", None, None]]],
+                   ["field", "o3", "obj", None, [["field", name, "date", None, None]]],
+                   ["field", "o4", "obj", None, [["field", name, "oid", None, None]]],
+                   ["field", "o5", "obj", None, [["field", name, "inner", None, [["field", name, fname, None, None]]]]],
+                   ["field", name, fname, None, None]]
+            payload = {"obj": {name: "ALPHA"}, "o2": {name: "beta"}, "o3": {name: "2020"}, "o4": {name: "id1"}, "o5": {name: {name: "s"}}, name: 5}
+        doc = {"operations": [{"kind": "query", "name": "Q", "vars": [], "sel": sel}], "fragments": []}
         vecs.append({"id": "r0", "kind": "resp", "target": "Q", "input": payload, "expect": {"ok": True, "reser": payload}, "label": "wire-key"})
         # the key spelt as the Rust identifier would be must NOT be accepted in place of the GraphQL name (non-null not used: check via loss)
     elif pos == "variable":
